@@ -216,6 +216,8 @@ pub fn plan_to_json(p: &Plan) -> Value {
         "cancel_at": p.cancel_at,
         "stuck": p.stuck.iter().map(|(e, o)| json!([e, o])).collect::<Vec<_>>(),
         "fresh_wakers": p.fresh_wakers,
+        "ready_pm": p.ready_pm,
+        "ready_seed": p.ready_seed.to_string(),
     })
 }
 
@@ -253,6 +255,8 @@ pub fn plan_from_json(v: &Value) -> Plan {
     p.batch_pm = v["batch_pm"].as_u64().unwrap_or(0) as u32;
     p.cancel_at = v["cancel_at"].as_u64().map(|x| x as u32);
     p.fresh_wakers = v["fresh_wakers"].as_bool().unwrap_or(false);
+    p.ready_pm = v["ready_pm"].as_u64().unwrap_or(0) as u32;
+    p.ready_seed = v["ready_seed"].as_str().and_then(|x| x.parse().ok()).unwrap_or(0);
     if let Some(a) = v["stuck"].as_array() {
         for x in a {
             p.stuck.insert((x[0].as_u64().unwrap_or(0) as u32, x[1].as_u64().unwrap_or(0) as u32));
@@ -508,6 +512,9 @@ fn record_stats(st: &mut Stats, prog: &Prog, kind: Kind, plan: &Plan, strat: Str
     }
     if plan.fresh_wakers && kind.is_async() {
         Stats::bump(f, "F-waker", 1);
+    }
+    if ev.obs.ready_now > 0 {
+        Stats::bump(f, "F-ready", ev.obs.ready_now);
     }
     if ev.obs.stale_wakes > 0 {
         Stats::bump(&mut st.probes, "wake_through_stale_waker_ignored", ev.obs.stale_wakes);
@@ -809,6 +816,22 @@ fn plans_for(mode: PlanMode, check: &str, prog: &Prog, kind: Kind, b: Budget, se
             }
         }
     }
+    // F-ready: in a third of the async plans some or all gate futures complete in their very first poll. Not in the Agree mode:
+    // which of several immediately failing branches is seen first legitimately differs between the plain macro (branches polled
+    // in index order) and the task-spawning one (tasks polled in the executor's order).
+    if kind.is_async() && mode != PlanMode::Agree {
+        for p in out.iter_mut() {
+            match rng.below(9) {
+                0 => p.ready_pm = 1000,
+                1 => p.ready_pm = 500,
+                2 => p.ready_pm = 200,
+                _ => {}
+            }
+            if p.ready_pm > 0 {
+                p.ready_seed = rng.next();
+            }
+        }
+    }
     out
 }
 
@@ -892,6 +915,11 @@ pub fn minimise(check: &str, prog: &Prog, f: &mut Failure) -> (Eval, u32) {
     if f.plan.fresh_wakers {
         let mut c = f.plan.clone();
         c.fresh_wakers = false;
+        try_plan!(c);
+    }
+    if f.plan.ready_pm != 0 {
+        let mut c = f.plan.clone();
+        c.ready_pm = 0;
         try_plan!(c);
     }
     if f.plan.input_seed != 0 {
